@@ -44,6 +44,9 @@ def feature_text(r, bases, ligs, marks, use_ext):
         for s in pick(bases, r.randint(1, 3)):
             pp.append(f"pos {f} {s} {-r.randint(5,90)};")
     L.append("lookup PP1 { " + " ".join(pp) + " } PP1;")
+    # a second lookup with exactly the same content (as the same kerning written under two scripts gives): equal by
+    # value, distinct in the font
+    L.append("lookup PP1B { " + " ".join(pp) + " } PP1B;")
     L.append(f"lookup PP2{ext} {{ pos [{' '.join(pick(bases,3))}] [{' '.join(pick(bases,3))}] {-r.randint(5,90)}; pos [{' '.join(pick(bases,2))}] [{' '.join(pick(bases,2))}] {r.randint(5,90)}; }} PP2;")
     L.append("lookup CUR { " + " ".join(f"pos cursive {g} <anchor {r.randint(0,9)} {r.randint(0,9)}> <anchor {r.randint(90,110)} {r.randint(0,9)}>;" for g in pick(bases, 3)) + f" pos cursive {pick(bases,1)[0]} <anchor NULL> <anchor 7 7>;" + " } CUR;")
     L.append("lookup MB { " + " ".join(f"pos base {g} <anchor {r.randint(200,300)} {r.randint(500,700)}> mark @TOP <anchor {r.randint(200,300)} {-r.randint(5,40)}> mark @BOT;" for g in pick(bases, 4)) + " } MB;")
@@ -71,6 +74,7 @@ def feature_text(r, bases, ligs, marks, use_ext):
     L.append(f"lookup RV {{ rsub {rv[0]} [{' '.join(rcov)}]' {rv[2]} by [{' '.join(rsubst)}]; rsub {rv[0]} {pick([g for g in bases if g != rv[1]],1)[0]}' {rv[2]} by {pick(bases,1)[0]}; }} RV;")
     L.append(f"lookup CHP {{ pos {pick(bases,1)[0]} {t2}' lookup SP1 {pick(bases,1)[0]}; }} CHP;")
     L.append("feature kern { lookup SP1; lookup SP2; lookup PP1; lookup PP2; lookup CHP; } kern;")
+    L.append("feature dist { lookup PP1B; } dist;")
     L.append("feature curs { lookup CUR; } curs;")
     L.append("feature mark { lookup MB; lookup ML; } mark;")
     L.append("feature mkmk { lookup MM; } mkmk;")
